@@ -1,2 +1,94 @@
-(* C09 - placeholder while the model is validated against the implementation *)
-From TT Require Import Lib.Base Lib.Bytestr Model.Mime Model.StreamRec Model.StreamConv Spec.C09 Corr.C09 Proof.C09.
+(* C09 - TestResult -> StreamResult -> TestResult conversion preserves every test.
+   Only statements; every proof is `exact <lemma of Proof/C09.v>`.
+   mid_stream / final_log are the model (Model/StreamConv.v over Model/StreamRec.v and Model/Mime.v):
+   the events ExtendedToStreamDecorator sends on, and the log of the extended result behind
+   StreamToExtendedDecorator.  expected / match_mid / match_fin / group / norm_log / wf are the
+   specification (Spec/C09.v): what an independent reading of the history says must be seen. *)
+From Coq Require Import String.
+From TT Require Import Lib.Base Lib.Sort Lib.Bytestr Gen.Streamtabs Model.Mime Model.StreamRec Model.StreamConv.
+From TT Require Import Spec.C09 Corr.C09 Proof.C09.
+Open Scope list_scope.
+
+(* The model meets the whole statement for every well-formed history. *)
+Theorem C09_holds : forall i : input, wf i = true -> spec_okb i (model i) = true.
+Proof. exact model_meets_spec. Qed.
+Print Assumptions C09_holds.
+
+(* ... and the executable statement implies the readable one (Spec.C09.Spec). *)
+Theorem C09_statement : forall i o, spec_okb i o = true -> Spec i o.
+Proof. exact spec_okb_sound. Qed.
+Print Assumptions C09_statement.
+
+(* the correspondence compares observations up to alpha: file events collapsed per detail (joined bytes,
+   parsed content type, eof on the last event only), tags() calls on the final result dropped, content
+   type parameters sorted by name *)
+Theorem C09_obs_eqb : forall a b, obs_eqb a b = true <-> alpha a = alpha b.
+Proof. exact obs_eqb_spec. Qed.
+Print Assumptions C09_obs_eqb.
+
+(* The stream in between is well formed: per test 'inprogress' at startTest (with the time current then),
+   then for each detail in dict order one closed group of file events carrying its joined bytes and content
+   type - eof on the last event of the group and on no other, a group of one empty eof event when the
+   content yields nothing -, the reason file if any, then exactly one final status with the current tags. *)
+Theorem C09_stream_wf : forall h, wf_from PNot h = true ->
+  Forall2 (fun x a => match_mid x a = true) (fst (expected ss0 h)) (group (mid_stream h)).
+Proof. exact stream_wf. Qed.
+Print Assumptions C09_stream_wf.
+
+(* Feeding those events to StreamToExtendedDecorator yields for each test one bracket
+   time(start) startTest time(outcome) outcome stopTest with the same id, the same outcome (error as
+   failure), the tags current at the outcome, the supplied times (0 = none supplied: a wall-clock value),
+   and as details exactly the details with non-empty bytes (same joined bytes, equal content type) plus
+   the non-empty skip reason; startTestRun / stopTestRun pass through. *)
+Theorem C09_roundtrip : forall h, wf_from PNot h = true ->
+  Forall2 (fun y l => match_fin y l = true) (snd (expected ss0 h)) (norm_log (final_log h)).
+Proof. exact roundtrip. Qed.
+Print Assumptions C09_roundtrip.
+
+(* the look-ahead loop of _convert: every chunk in order with eof=False except the last, which has
+   eof=True; a single empty eof chunk when there is none *)
+Theorem C09_chunks : forall (emit : string -> bool -> mev) (cs : list string),
+  (let (pending, out) := chunk_loop emit None cs [] in
+   out ++ [emit (match pending with Some p => p | None => ""%string end) true])
+  = map (fun c => emit c false) (fst (split_last cs)) ++ [emit (snd (split_last cs)) true].
+Proof. exact chunk_loop_spec. Qed.
+Print Assumptions C09_chunks.
+
+(* repr(ContentType) parsed back by _make_content_type is the same content type (parameters in rendered
+   order, equal as a dict), for content types in the validated domain wf_ct *)
+Theorem C09_mime_roundtrip : forall ct, wf_ct ct = true ->
+  parse (render ct) = CType (ct_type ct) (ct_sub ct) (isort item_leb (ct_params ct))
+  /\ ct_same (parse (render ct)) ct = true /\ ct_same (norm_ct (parse (render ct))) ct = true.
+Proof. exact (fun ct H => conj (mime_roundtrip ct H) (mime_roundtrip_same ct H)). Qed.
+Print Assumptions C09_mime_roundtrip.
+
+(* the live tables: each add* sends the status word the statement names (error and failure both 'fail'),
+   that word is final, and _status_map replays it as the same outcome with error turned into failure *)
+Theorem C09_tables :
+  (forall k, word_of k = final_word k)
+  /\ (forall k, final (Some (final_word k)) = true)
+  /\ (forall k, outcome_of (final_word k) = Some (replayed k))
+  /\ final None = false /\ final (Some Inprogress) = false.
+Proof. exact (conj word_table (conj final_word_final (conj outcome_of_final_word (conj final_none final_inprogress)))). Qed.
+Print Assumptions C09_tables.
+
+(* non-vacuity: run-level and test-level tags, a supplied time, a failure with a two-chunk text detail, an
+   empty detail and a parameterised binary one, then a skip with a reason *)
+Example C09_example :
+  let h := [OStartRun; OTags [1] []; OTime 3; OStartTest 7; OTags [2] [1]; OTime 5;
+            OOutcome AddError 7 (Some [Detail 2 (CType "text" "plain" [("charset", "utf8")]%string) ["ab"; ""; "c"]%string;
+                                       Detail 3 (CType "image" "png" []) [];
+                                       Detail 4 (CType "application" "x-t" [("b", "2"); ("a", "x; y")]%string) ["z"%string]])
+                     None;
+            OStopTest 7; OStartTest 8; OOutcome AddSkip 8 None (Some "why"%string); OStopTest 8; OStopRun] in
+  wf_from PNot h = true
+  /\ List.length (mid_stream h) = 12
+  /\ norm_log (final_log h)
+     = [LStartRun; LTime 3; LStartTest 7; LTime 5;
+        LOutcome AddFailure 7 [2]
+          [(2, (CType "text" "plain" [("charset", "utf8")]%string, "abc"%string));
+           (4, (CType "application" "x-t" [("a", "x; y"); ("b", "2")]%string, "z"%string))];
+        LStopTest 7; LTime 5; LStartTest 8; LTime 5;
+        LOutcome AddSkip 8 [1] [(0, (CType "text" "plain" [("charset", "utf8")]%string, "why"%string))];
+        LStopTest 8; LStopRun].
+Proof. vm_compute. repeat split. Qed.
